@@ -6,6 +6,9 @@ import (
 	"bytes"
 	"fmt"
 	"io"
+	"math"
+	"math/big"
+	"strings"
 	"testing"
 
 	"github.com/ipld/go-ipld-prime/datamodel"
@@ -17,7 +20,7 @@ type readerModel struct {
 	pos int64
 }
 
-const c04Rule = "case = (file DAG shape: raw block / wrapped single node / 1..4-level trees written by the builder or boxo balanced+trickle, 1..3 readers from separate AsLargeBytes calls, history of up to ~60 Seek/Read steps with offsets aimed at 0, chunk boundaries +-1, len-1, len, len+1, negative and far past the end); " +
+const c04Rule = "case = (file DAG shape: raw block / wrapped single node / 1..4-level trees written by the builder or boxo balanced+trickle, 1..3 readers from separate AsLargeBytes calls, history of up to ~60 Seek/Read steps with offsets aimed at 0, chunk boundaries +-1, len-1, len, len+1, negative, far past the end and at the edges of int64 (results that overflow), and with transient storage faults (the k-th next block load fails once) followed by retries); " +
 	"oracle = per-reader position model over the exact content; non-trivial = history with a seek landing on a chunk boundary or past the end followed by a read, or >= 2 readers interleaved, or a failed (negative) seek followed by a read; distinct by (shape, reader count, multiset of action classes)"
 
 func genSeekOffset(t *rapid.T, fc *fileCase) int64 {
@@ -79,7 +82,18 @@ func TestC04_P_ReadSeekModel(t *testing.T) {
 			lastReader = i
 			return i, readers[i]
 		}
+		faultsOK := !strings.HasPrefix(fc.Writer, "hand-") // (hand-made files may lack the sizes a Seek needs, and measuring swallows load errors)
 		t.Repeat(map[string]func(*rapid.T){
+			"transientFault": func(t *rapid.T) {
+				// the k-th block load from now on fails once (a transient storage error): the operation that meets it may
+				// report it, but whatever bytes are delivered, now or on a retry, must be the bytes at the reader's position
+				if !faultsOK {
+					t.Skip("no faults on hand-made files")
+				}
+				fc.St.FaultKind = genFaultKind(t)
+				fc.St.FailReadAt = len(fc.St.ReadLog()) + rapid.IntRange(1, 3).Draw(t, "faultAfterLoads")
+				classes["transient-fault-armed"]++
+			},
 			"newReader": func(t *rapid.T) {
 				if len(readers) >= 3 {
 					t.Skip("enough readers")
@@ -90,6 +104,38 @@ func TestC04_P_ReadSeekModel(t *testing.T) {
 			"seek": func(t *rapid.T) {
 				i, r := pick(t)
 				whence := rapid.IntRange(0, 2).Draw(t, "whence")
+				var got int64
+				var err error
+				if rapid.IntRange(0, 14).Draw(t, "extreme") == 0 {
+					// offsets at the edges of int64: the exact result (computed without wrap-around) is either representable,
+					// and then it is the answer, or it is negative or beyond MaxInt64, and then no returned position can be right
+					base := map[int]int64{io.SeekStart: 0, io.SeekCurrent: r.pos, io.SeekEnd: n}[whence]
+					off := rapid.SampledFrom([]int64{math.MaxInt64, math.MaxInt64 - 1, math.MinInt64, math.MinInt64 + 1, math.MaxInt64 - base, math.MaxInt64 - base + 1, -base - 1, math.MaxInt64 / 2, math.MinInt64 / 2}).Draw(t, "edgeoff")
+					exact := new(big.Int).Add(big.NewInt(base), big.NewInt(off))
+					must(t, "Seek", func() { got, err = r.rs.Seek(off, whence) })
+					if exact.Sign() < 0 || !exact.IsInt64() {
+						if err == nil {
+							t.Fatalf("C04 [%s] reader %d: Seek(%d, %d) from %d has the exact result %s (not a valid position) but returned (%d, nil)", fc.Desc, i, off, whence, r.pos, exact, got)
+						}
+						var p2 int64
+						must(t, "Seek after failed seek", func() { p2, err = r.rs.Seek(0, io.SeekCurrent) })
+						if err != nil || p2 != r.pos {
+							t.Fatalf("C04 [%s] reader %d: after the rejected Seek(%d, %d) the reader reports position (%d, %v), it was at %d", fc.Desc, i, off, whence, p2, err, r.pos)
+						}
+						classes["seek-int64-edge-rejected"]++
+						armed[i] = "failed-seek"
+						return
+					}
+					if err != nil || got != exact.Int64() {
+						t.Fatalf("C04 [%s] reader %d: Seek(%d, %d) from %d = (%d, %v), want (%s, nil)", fc.Desc, i, off, whence, r.pos, got, err, exact)
+					}
+					r.pos = got
+					classes["seek-int64-edge"]++
+					if r.pos >= n {
+						armed[i] = "past-end"
+					}
+					return
+				}
 				target := genSeekOffset(t, fc)
 				var off int64
 				switch whence {
@@ -100,8 +146,6 @@ func TestC04_P_ReadSeekModel(t *testing.T) {
 				case io.SeekEnd:
 					off = target - n
 				}
-				var got int64
-				var err error
 				if armed[i] == "copy" {
 					interesting = true
 					classes["seek-after-copy"]++
@@ -153,6 +197,15 @@ func TestC04_P_ReadSeekModel(t *testing.T) {
 				var buf bytes.Buffer
 				var err error
 				must(t, "io.Copy", func() { _, err = io.Copy(&buf, r.rs) })
+				if err != nil && isInjected(err) && fc.St.FailReadAt != 0 {
+					if r.pos+int64(buf.Len()) > n || !bytes.Equal(buf.Bytes(), fc.Data[r.pos:r.pos+int64(buf.Len())]) {
+						t.Fatalf("C04 [%s] reader %d: io.Copy from %d stopped by a storage fault after delivering %d wrong bytes", fc.Desc, i, r.pos, buf.Len())
+					}
+					r.pos += int64(buf.Len())
+					classes["copy-fault"]++
+					armed[i] = "fault"
+					return
+				}
 				if err != nil {
 					t.Fatalf("C04 [%s] reader %d: io.Copy from %d: %v", fc.Desc, i, r.pos, err)
 				}
@@ -199,6 +252,15 @@ func TestC04_P_ReadSeekModel(t *testing.T) {
 					}
 					classes["read-at-end"]++
 				} else {
+					if err != nil && isInjected(err) && fc.St.FailReadAt != 0 {
+						if r.pos+int64(got) > n || !bytes.Equal(buf[:got], fc.Data[r.pos:r.pos+int64(got)]) {
+							t.Fatalf("C04 [%s] reader %d: Read(%d) at %d met a storage fault and delivered wrong bytes %x", fc.Desc, i, k, r.pos, buf[:got])
+						}
+						r.pos += int64(got)
+						classes["read-fault"]++
+						armed[i] = "fault"
+						return
+					}
 					if err != nil && !(err == io.EOF && r.pos+int64(got) == n) {
 						t.Fatalf("C04 [%s] reader %d: Read(%d) at %d = (%d, %v)", fc.Desc, i, k, r.pos, got, err)
 					}
@@ -215,6 +277,7 @@ func TestC04_P_ReadSeekModel(t *testing.T) {
 				}
 			},
 		})
+		fc.St.FailReadAt = 0
 		// final consistency: every reader reports its modelled position and reads the exact remainder
 		for i, r := range readers {
 			p, err := r.rs.Seek(0, io.SeekCurrent)
@@ -232,7 +295,7 @@ func TestC04_P_ReadSeekModel(t *testing.T) {
 		}
 		nt := interesting || (len(readers) >= 2 && interleaved)
 		keys := ""
-		for _, k := range []string{"seek-boundary", "seek-at/past-end", "seek-negative", "seek-interior", "read", "read-at-end", "read-after-boundary", "read-after-past-end", "read-after-failed-seek"} {
+		for _, k := range []string{"seek-boundary", "seek-at/past-end", "seek-negative", "seek-interior", "read", "read-at-end", "read-after-boundary", "read-after-past-end", "read-after-failed-seek", "read-after-fault", "seek-int64-edge-rejected"} {
 			keys += fmt.Sprintf("%s=%s,", k, bucket(classes[k]))
 		}
 		cl := []string{"writer:" + fc.Writer, fmt.Sprintf("depth:%d", fc.Tree.Depth()), fmt.Sprintf("readers:%d", len(readers)), "open:" + how}
